@@ -1038,16 +1038,27 @@ class HistogramBase(abc.ABC):
         if np.isscalar(other):
             array = np.asarray(other)
             scalar = cast(float, other)
+            if isinstance(other, np.generic) and array.dtype.itemsize < 8:
+                scalar = other.item()  # (Narrow numpy types would be squared in their own range)
+            if array.dtype.kind in "iuf" and scalar < 0 and not config.free_arithmetics:
+                # (Also when all bins are empty: the missed counters and statistics are scaled too)
+                raise ValueError("Cannot have negative frequencies.")
             try:
                 self._coerce_dtype(array.dtype)
             except ValueError as v:
                 raise TypeError(str(v)) from v
             stats = getattr(self, "_stats", None)  # (Assigning the contents resets them)
-            self.frequencies = self.frequencies * scalar
-            self.errors2 = self.errors2 * scalar**2
-            self._missed = self._missed * scalar
+            # Whatever can fail, fails before anything is changed
+            frequencies = self.frequencies * scalar
+            errors2 = self.errors2 * scalar**2
+            missed = self._missed * scalar
             if stats is not None:
-                self._stats = stats * scalar
+                stats = stats * scalar
+            self.frequencies = frequencies
+            self.errors2 = errors2
+            self._missed = missed
+            if stats is not None:
+                self._stats = stats
         elif config.free_arithmetics:  # Treat other as array-like
             array = np.asarray(other)
             self._coerce_dtype(array.dtype)
@@ -1072,14 +1083,26 @@ class HistogramBase(abc.ABC):
         if isinstance(other, HistogramBase):
             raise TypeError("Division of two histograms is not supported.")
         elif np.isscalar(other):
-            reciprocal = 1 / other  # Fails for zero before anything is modified
-            self._coerce_dtype(np.float64)
+            if isinstance(other, np.generic) and np.asarray(other).dtype.itemsize < 8:
+                other = other.item()  # (Narrow numpy types would be squared in their own range)
+            if other == 0:
+                raise ZeroDivisionError("Histograms cannot be divided by zero.")
+            if other < 0 and not config.free_arithmetics:
+                raise ValueError("Cannot have negative frequencies.")
+            reciprocal = 1 / other
             stats = getattr(self, "_stats", None)  # (Assigning the contents resets them)
-            self.frequencies = self.frequencies / other
-            self.errors2 = self.errors2 / other**2
-            self._missed /= other
+            self._coerce_dtype(np.float64)
+            # Whatever can fail, fails before any value is changed
+            frequencies = self.frequencies / other
+            errors2 = self.errors2 / other**2
+            missed = self._missed / other
             if stats is not None:
-                self._stats = stats * reciprocal
+                stats = stats * reciprocal
+            self.frequencies = frequencies
+            self.errors2 = errors2
+            self._missed = missed
+            if stats is not None:
+                self._stats = stats
         elif config.free_arithmetics:  # Treat other as array-like
             self._coerce_dtype(np.float64)
             array = np.asarray(other)
